@@ -477,10 +477,11 @@ func (w *world) Exec(op hx.Zs) (out []hx.Zs) {
 		n := len(w.kept)
 		s := w.snapshot()
 		return append([]hx.Zs{s}, w.changed(n)...)
-	case 1:
+	case 1, 5: // 5: the same update, but the store is not read back (no DataCopy) afterwards
 	default:
 		return []hx.Zs{{97}}
 	}
+	quiet := op[0] == 5
 	remote, persist, wire := r.n(), r.n(), r.n()
 	items := r.items()
 	fpA, fdA := r.filter(), r.filter()
@@ -575,7 +576,9 @@ func (w *world) Exec(op hx.Zs) (out []hx.Zs) {
 		}
 	}
 	// read the store back; the copy is kept like any other
-	out = append(out, w.snapshot())
+	if !quiet {
+		out = append(out, w.snapshot())
+	}
 	if w.w != nil {
 		w.w.take()
 	}
